@@ -428,7 +428,8 @@ theorem alloc_sep {h : Heap α} {a : Nat} {t : Tree α} (habs : Abs h a t) :
   have := abs_reach_lt habs (reach_of_agree habs (agree_append ext habs) hb)
   omega
 
-/-- **`runs_independent`** (1): whatever runs are executed — any number, any order, each stopped after
+/-- **`runs_independent`** (1) (the base object is the whole graph handed to `run_mode`: processor, detector,
+pipeline and the running-mode object with its readout): whatever runs are executed — any number, any order, each stopped after
 any number of writes (failing runs) — the caller's object keeps its value … -/
 theorem runs_preserve_base {t : Tree α} {h : Heap α} {base : Nat} (habs : Abs h base t)
     (runs : List (RunSpec α)) (hl : RunsLegal t h runs) : Abs (execRuns t h runs) base t := by
